@@ -10,6 +10,7 @@ pub mod rng;
 pub mod rt;
 pub mod simdisk;
 pub mod simio;
+pub mod simnet;
 
 use std::{
     collections::BTreeMap,
